@@ -33,6 +33,22 @@ def func_def_rule(fname, macro, count=1):
     return Rule("contract:" + fname, pat, "\n" + macro + "\n", count=count)
 
 
+def hoist_decl_rule(fname, decl_regex, decl_text, name):
+    """The ONE rule family that touches original tokens: a block-scoped declaration
+    without initialiser inside a contract loop is commented out in place and
+    re-declared at function scope (DFCC cannot put block-scoped locals of a contract
+    loop into the loop's write set).  Semantics are unchanged: the variable is
+    assigned before every use (checked by CBMC: reading it uninitialised would be
+    a nondet value and the functional post-condition would fail)."""
+    r1 = Rule(name + ":open", decl_regex.replace("(?P<decl>", "(?P<at>)(?P<decl>"), "/* hoisted by overlay: ")
+    r1.scope = fname
+    r2 = Rule(name + ":close", decl_regex + r"(?P<at>)", " */")
+    r2.scope = fname
+    pat = r"^" + re.escape(fname) + r"\((?:[^(){};]|\([^()]*\))*\)\s*\n\{(?P<at>)"
+    r3 = Rule(name + ":redecl", pat, "\n        " + decl_text + " /* hoisted by overlay */")
+    return [r1, r2, r3]
+
+
 def nth_loop_rule(fname, loop_regex, macro, name=None):
     """Insert the loop contract macro right after the loop header matched by
     loop_regex (must contain group 'at' before the `{`), searching only inside
